@@ -99,10 +99,10 @@ def gen_case(rng, max_ops=8, max_meas=5, allow_pairs=True, allow_corr=True, ops=
             v = rng.choice(SPECIAL_VALUES)
         r = rng.random()
         e = 0.0 if r < 0.12 else abs(v) * 10 ** rng.uniform(-6, -0.7)
-        if v == 0.0:
-            e = 10 ** rng.uniform(-3, -0.7)     # a reading of exactly 0 with an uncertainty
         if vals and rng.random() < 0.15:
             v = rng.choice(vals)     # two distinct measurements with exactly the same reading
+        if v == 0.0:
+            e = 10 ** rng.uniform(-3, -0.7)     # a reading of exactly 0 with an uncertainty
         vals.append(float(v))
         errs.append(float(e))
     raw = {}
